@@ -1,3 +1,230 @@
-From Onet Require Import Api.Rest Api.RestConc Api.RestProofs.
-Theorem c14_stub : spec = spec. Proof. exact stub. Qed.
-Print Assumptions c14_stub.
+(* C14 -- Every client request gets the reply computed for exactly that request.
+   Only statements; every proof is [exact] of a lemma of Api/RestProofs.v or
+   Api/RestConcProofs.v.
+
+   Vocabulary (Api/Rest.v, Api/RestConc.v): [run fl w clients st l] executes a history
+   [l] of client requests (REST or websocket, any clients) one after the other;
+   [crun fl w clients (start st rd) sched] executes the requests [rd] that are in
+   flight together under the interleaving [sched] of their atomic steps;
+   [spec w clients cr] is the reply the registered handler produces for the content
+   of request [cr] alone; [all_fixed] is the code with the two proposed repairs,
+   [pinned] the code as it is. *)
+From Coq Require Import List String ZArith Bool.
+Import ListNotations.
+From Onet Require Import Api.Rest Api.RestConc Api.RestProofs Api.RestConcProofs Corr.C14 Api.CheckProofs.
+Local Open Scope string_scope.
+
+(* Sequential form: any history, from any state an earlier history left behind. *)
+Theorem c14_reply_is_function_of_request_seq : forall w clients l st,
+  wf_state w st -> snd (run all_fixed w clients st l) = map (spec w clients) l.
+Proof. exact run_fixed_spec. Qed.
+Print Assumptions c14_reply_is_function_of_request_seq.
+
+(* Concurrent form: any requests in flight together, ANY interleaving of the field
+   writes of their decodings and of their handler calls. *)
+Theorem c14_reply_is_function_of_request : forall w clients st rd sched i t rep,
+  wf_state w st ->
+  nth_error (g_threads (crun all_fixed w clients (start st rd) sched)) i = Some t ->
+  th_rep t = Some rep ->
+  exists cr, nth_error rd i = Some cr /\ rep = spec w clients cr.
+Proof. exact conc_fixed_spec. Qed.
+Print Assumptions c14_reply_is_function_of_request.
+
+Theorem c14_state_after_round : forall w clients st rd sched,
+  wf_state w st ->
+  let g := crun all_fixed w clients (start st rd) sched in
+  wf_state w {| s_cells := g_cells g; s_dead := g_dead g |}.
+Proof. exact conc_fixed_state. Qed.
+Print Assumptions c14_state_after_round.
+
+Example c14_interleaving_example :
+  replies (crun all_fixed demo_world [CKind true true] (start (init_state demo_world) demo_round)
+                [0; 1; 0; 2; 1; 0]) =
+  [Some (ROk 10 (Msg "one" 1 false "")); Some (RErr EHandler "fail-2"); Some (ROk 1 (Msg "three" 0 false ""))].
+Proof. exact conc_fixed_example. Qed.
+Print Assumptions c14_interleaving_example.
+
+(* The specification of a request looks at nothing but that request and the kind of
+   the client that sent it: no attribution to, and no content from, anybody else. *)
+Theorem c14_spec_local : forall w clients clients' cr,
+  nth_error clients (c_client cr) = nth_error clients' (c_client cr) ->
+  spec w clients cr = spec w clients' cr.
+Proof. exact spec_local. Qed.
+Print Assumptions c14_spec_local.
+
+(* A failing, panicking or malformed request changes nobody else's reply. *)
+Theorem c14_failure_contained : forall w clients l1 cr l2,
+  snd (run all_fixed w clients (init_state w) (l1 ++ cr :: l2)%list) =
+  (snd (run all_fixed w clients (init_state w) l1) ++
+   spec w clients cr :: snd (run all_fixed w clients (init_state w) l2))%list.
+Proof. exact failure_contained. Qed.
+Print Assumptions c14_failure_contained.
+
+(* A handler error or panic is an error reply carrying that handler's token (REST) ... *)
+Theorem c14_handler_failure_reported_rest : forall tag h t,
+  failure_token h = Some t ->
+  exists c, hres_reply tag h = RErr c t /\ (c = EHandler \/ c = EPanic).
+Proof. exact handler_failure_reported_rest. Qed.
+Print Assumptions c14_handler_failure_reported_rest.
+
+(* ... and on the websocket an error close carrying the token, or -- when the reason
+   does not fit a close frame -- a close without reason; never a success. *)
+Theorem c14_handler_failure_reported_ws : forall hs h tag path p t,
+  nth_error hs path = Some (h, tag) ->
+  failure_token (handler h (apply_writes zero_msg (pmsg_writes p))) = Some t ->
+  let r := ws_handle hs {| w_svc := true; w_path := path; w_body := WMsg p |} in
+  r = RErr EHandler t \/ r = RErr EPanic t \/ r = RErr EAbnormal "".
+Proof. exact handler_failure_reported_ws. Qed.
+Print Assumptions c14_handler_failure_reported_ws.
+
+Theorem c14_ws_success_only_from_handler : forall hs q tag m,
+  ws_handle hs q = ROk tag m ->
+  exists h p, nth_error hs (w_path q) = Some (h, tag) /\ w_body q = WMsg p /\
+              handler h (apply_writes zero_msg (pmsg_writes p)) = HOk m.
+Proof. exact ws_success_only_from_handler. Qed.
+Print Assumptions c14_ws_success_only_from_handler.
+
+(* ---- the code as it is --------------------------------------------------------- *)
+
+(* F17: POST {"S":"42"} then POST {} *)
+Theorem c14_rest_carryover_refuted :
+  exists w clients l,
+    snd (run pinned w clients (init_state w) l) <> map (spec w clients) l /\
+    l = [post (BObj [("S", JStr "42" None)]); post (BObj [])] /\
+    snd (run pinned w clients (init_state w) l) =
+      [ROk 10 (Msg "42" 0 false ""); ROk 10 (Msg "42" 0 false "")] /\
+    map (spec w clients) l = [ROk 10 (Msg "42" 0 false ""); RErr EHandler "empty"].
+Proof. exact rest_carryover_refuted. Qed.
+Print Assumptions c14_rest_carryover_refuted.
+
+(* F17 through a rejected request *)
+Theorem c14_rest_carryover_from_rejected_refuted :
+  let l := [post (BObj [("S", JStr "zz" None); ("I", JStr "x" None)]); post (BObj [("I", JNum 1)])] in
+  snd (run pinned demo_world [CKind true true] (init_state demo_world) l) =
+    [RErr EDecode ""; ROk 10 (Msg "zz" 1 false "")] /\
+  map (spec demo_world [CKind true true]) l = [RErr EDecode ""; RErr EHandler "empty"].
+Proof. exact rest_carryover_from_rejected_refuted. Qed.
+Print Assumptions c14_rest_carryover_from_rejected_refuted.
+
+(* F17 under concurrency, with requests that omit nothing *)
+Theorem c14_rest_concurrent_crosstalk_refuted :
+  let rd := [full_post "alice" 1; full_post "bob" 2] in
+  let g := crun pinned demo_world [CKind true true] (start (init_state demo_world) rd)
+                [0; 0; 0; 0; 1; 1; 1; 1; 0; 1] in
+  replies g = [Some (ROk 10 (Msg "bob" 2 true "")); Some (ROk 10 (Msg "bob" 2 true ""))] /\
+  map (spec demo_world [CKind true true]) rd =
+    [ROk 10 (Msg "alice" 1 true ""); ROk 10 (Msg "bob" 2 true "")].
+Proof. exact conc_pinned_refuted. Qed.
+Print Assumptions c14_rest_concurrent_crosstalk_refuted.
+
+(* F28: a keeping client after one failed request *)
+Theorem c14_keep_dead_refuted :
+  let clients := [CKind true true; CKind true true] in
+  let l := [wsreq 0 "a"; wsreq 0 "fail-1"; wsreq 0 "a"; wsreq 1 "a"] in
+  snd (run pinned demo_world clients (init_state demo_world) l) =
+    [ROk 1 (Msg "a" 0 false ""); RErr EHandler "fail-1"; RErr EDeadConn ""; ROk 1 (Msg "a" 0 false "")] /\
+  map (spec demo_world clients) l =
+    [ROk 1 (Msg "a" 0 false ""); RErr EHandler "fail-1"; ROk 1 (Msg "a" 0 false ""); ROk 1 (Msg "a" 0 false "")].
+Proof. exact keep_dead_refuted. Qed.
+Print Assumptions c14_keep_dead_refuted.
+
+(* The exact shape of F17: the cell of a REST resource is the merge of everything
+   earlier requests to it decoded. *)
+Theorem c14_pinned_cell_is_merge : forall w clients ri l st c,
+  List.length (s_cells st) = List.length (w_regs w) ->
+  nth_error (s_cells st) ri = Some c ->
+  nth_error (s_cells (fst (run pinned w clients st l))) ri =
+  Some (apply_writes c (history_writes w ri l)).
+Proof. exact pinned_cell_is_merge. Qed.
+Print Assumptions c14_pinned_cell_is_merge.
+
+(* The code as it is, outside the two defects: histories in which every REST request
+   writes every field its handler reads and no keeping client's request fails. *)
+Theorem c14_pinned_outside_defects : forall w clients l st,
+  wf_state w st -> forallb (safe w clients) l = true ->
+  snd (run pinned w clients st l) = map (spec w clients) l.
+Proof. exact run_pinned_spec_restricted. Qed.
+Print Assumptions c14_pinned_outside_defects.
+
+Example c14_pinned_outside_defects_satisfiable :
+  forallb (safe demo_world [CKind false true])
+    [post (BObj [("S", JStr "a" None); ("I", JNum 5); ("B", JBool true); ("D", JNull)]); wsreq 0 "fail-1"] = true.
+Proof. exact run_pinned_spec_restricted_satisfiable. Qed.
+Print Assumptions c14_pinned_outside_defects_satisfiable.
+
+(* ---- the checker run on every observation ------------------------------------- *)
+
+(* [Corr.C14.check] returns no clause exactly when every observed reply is what the
+   property demands of its request *)
+Theorem c14_check_decides : forall clients rounds obs,
+  check (Case clients rounds obs) = [] <-> observation_ok clients rounds obs.
+Proof. exact check_decides. Qed.
+Print Assumptions c14_check_decides.
+
+Theorem c14_sat_meaning : forall clients cr o,
+  sat clients cr o <->
+  let s := spec c14_world clients cr in
+  reply_eqb s o = true \/
+  (is_ws cr = true /\ is_err s = true /\ exists t', o = RErr EAbnormal t').
+Proof. exact sat_meaning. Qed.
+Print Assumptions c14_sat_meaning.
+
+Theorem c14_reply_eqb_eq : forall a b, reply_eqb a b = true <-> a = b.
+Proof. exact reply_eqb_eq. Qed.
+Print Assumptions c14_reply_eqb_eq.
+
+(* ---- the relation the correspondence check uses for concurrent rounds ----------- *)
+
+(* The schedule of a real concurrent round cannot be observed, so for the code as it is
+   the model's verdict on a scenario is the relation [scenario_ok] built from
+   [admissible] (per REST resource and field: the values the handler of request i may
+   find in the shared argument; per kept connection: whether it may already be dead)
+   and [round_next].  It over-approximates the interleaving semantics: pinned code, any
+   concrete state [st] described by the abstract state [a], any round, ANY interleaving
+   -- every reply produced is admissible, ... *)
+Theorem c14_pinned_admissible_sound : forall w clients rd a st sched i t rep,
+  List.length (a_cells a) = List.length (w_regs w) ->
+  abstracts w a st ->
+  nth_error (g_threads (crun pinned w clients (start st rd) sched)) i = Some t ->
+  th_rep t = Some rep ->
+  exists cr, nth_error rd i = Some cr /\ admissible pinned w clients a rd i cr rep = true.
+Proof. exact conc_pinned_sound. Qed.
+Print Assumptions c14_pinned_admissible_sound.
+
+(* ... the abstract state after the round describes the state every interleaving that
+   answers the whole round leaves behind, ... *)
+Theorem c14_pinned_next_abstracts : forall w clients rd a st sched,
+  List.length (a_cells a) = List.length (w_regs w) ->
+  abstracts w a st ->
+  all_done (crun pinned w clients (start st rd) sched) = true ->
+  abstracts w (round_next pinned w clients a rd)
+             {| s_cells := g_cells (crun pinned w clients (start st rd) sched);
+                s_dead := g_dead (crun pinned w clients (start st rd) sched) |} /\
+  List.length (a_cells (round_next pinned w clients a rd)) = List.length (w_regs w).
+Proof. exact conc_pinned_next_abstracts. Qed.
+Print Assumptions c14_pinned_next_abstracts.
+
+(* ... hence every execution of a whole scenario (each round under some schedule that
+   answers all its requests) is accepted: a disagreement reported by Corr.C14.agree is
+   never an artefact of the unobservable schedules. *)
+Theorem c14_pinned_scenario_ok_sound : forall w clients rounds obs,
+  scen_run w clients (init_state w) rounds obs ->
+  scenario_ok pinned w clients (ainit w) rounds obs = true.
+Proof. exact scenario_ok_sound_init. Qed.
+Print Assumptions c14_pinned_scenario_ok_sound.
+
+Example c14_scen_run_satisfiable :
+  scen_run demo_world [CKind true true] (init_state demo_world)
+    [[post (BObj [("S", JStr "42" None)])]; [post (BObj [])]]
+    [[ROk 10 (Msg "42" 0 false "")]; [ROk 10 (Msg "42" 0 false "")]].
+Proof. exact scen_run_example. Qed.
+Print Assumptions c14_scen_run_satisfiable.
+
+(* Repaired code: the relation accepts the observation in which every request gets
+   spec(request) -- by c14_reply_is_function_of_request the only one any interleaving
+   can produce. *)
+Theorem c14_fixed_scenario_ok : forall w clients rounds a,
+  List.length (a_cells a) = List.length (w_regs w) -> a_dead a = [] ->
+  scenario_ok all_fixed w clients a rounds (map (map (spec w clients)) rounds) = true.
+Proof. exact scenario_ok_fixed_spec. Qed.
+Print Assumptions c14_fixed_scenario_ok.
